@@ -87,19 +87,35 @@ impl Ty {
     ) -> Result<(), Error> {
         match self {
             Ty::I64 { .. } => Ok(()),
-            Ty::Decl { name, .. } => match symbol_table.type_templates.get(name) {
-                Some(_) => Ok(()),
-                None => {
-                    if type_params.bindings.contains(name) {
-                        Ok(())
-                    } else {
-                        Err(Error::Undefined {
-                            span,
-                            name: name.clone(),
-                        })
+            Ty::Decl {
+                name, type_args, ..
+            } => {
+                // a type parameter of the template takes no type arguments
+                let expected = match symbol_table.type_templates.get(name) {
+                    Some((_, template_params, _)) => template_params.bindings.len(),
+                    None => {
+                        if type_params.bindings.contains(name) {
+                            0
+                        } else {
+                            return Err(Error::Undefined {
+                                span,
+                                name: name.clone(),
+                            });
+                        }
                     }
+                };
+                if type_args.args.len() != expected {
+                    return Err(Error::WrongNumberOfTypeArguments {
+                        span,
+                        expected,
+                        got: type_args.args.len(),
+                    });
                 }
-            },
+                for type_arg in &type_args.args {
+                    type_arg.check_template(span, symbol_table, type_params)?;
+                }
+                Ok(())
+            }
         }
     }
 
